@@ -13,7 +13,7 @@ CLAIMED = {
             "DESIGN.md §2.3"),
     "C09": ("exploration",
             "rapid-generated statements from the product keyspace x qualifier x table x shape, checked against a reference model of the documented routing rule at parser level and end to end",
-            "The interception decision is compared with an independent model (CQL identifier semantics) for tens of thousands of generated spellings, and end to end as QUERY and PREPARE+EXECUTE with the keyspace set by USE, by a rejected USE, or by the PREPARE keyspace field: handled <=> the request token never reaches a backend.",
+            "The interception decision is compared with an independent model (CQL identifier semantics) for tens of thousands of generated spellings, and end to end as QUERY and PREPARE+EXECUTE with the keyspace set by USE, by a rejected USE, or by the PREPARE keyspace field: handled <=> the request token never reaches a backend; the same unqualified text prepared under system and under a user keyspace on one connection.",
             "CQL comments (five positions, three syntaxes) count as whitespace in the model; comment markers inside string literals are generated too.",
             "DESIGN.md §2.9"),
     "C10": ("exploration",
@@ -23,17 +23,17 @@ CLAIMED = {
             "DESIGN.md §2.10"),
     "C12": ("exploration",
             "rapid-generated override configurations and requests; differential on decoded frames (reference codec) plus byte identity for untouched requests and a framing witness request",
-            "Any subset of consistency levels as the unsupported list and any override level; requests over the full option space, versions, flags and compressions; SELECT/DML/unknown-id ground truth by construction; the backend's frame must be byte-identical (not overridden) or decode to the client's request with only the consistency replaced, with the same flags and payload and a correct length (a second request follows immediately on the same backend connection).",
+            "Any subset of consistency levels as the unsupported list and any override level; requests over the full option space, versions, flags and compressions; SELECT/DML/unknown-id ground truth by construction; PREPARE immediately followed by EXECUTE with wide PREPARED results; the backend's frame must be byte-identical (not overridden) or decode to the client's request with only the consistency replaced, with the same flags and payload and a correct length (a second request follows immediately on the same backend connection).",
             "Configuration goes through proxy.Config via the verif hook; option spellings are C20's business.",
             "DESIGN.md §2.12"),
     "C13": ("exploration",
             "exhaustive enumeration of (version byte x max-version x opcode) in thorough, sampled in quick, plus rapid-generated interleaved handshake sequences against a model of the gate and of per-connection compression",
-            "One connection per cube point (256 x 5 x 8) checks protocol error/closure/never-forwarded and that the connection stays usable; generated sequences of OPTIONS/STARTUP (any COMPRESSION spelling)/REGISTER/gated frames/forwarded requests for 1..2 clients check exactly-one-reply, nothing at the backend, and that forwarded traffic runs with the client's algorithm and version.",
+            "Unknown version bytes also followed directly by a complete valid frame; OPTIONS/STARTUP/queries pipelined in one write; one connection per cube point (256 x 5 x 8) checks protocol error/closure/never-forwarded and that the connection stays usable; generated sequences of OPTIONS/STARTUP (any COMPRESSION spelling)/REGISTER/gated frames/forwarded requests for 1..2 clients check exactly-one-reply, nothing at the backend, and that forwarded traffic runs with the client's algorithm and version.",
             "Known versions are what the protocol library accepts (v2..v5, DSEv1, DSEv2); heartbeats disabled so that backend OPTIONS counts are meaningful.",
             "DESIGN.md §2.13"),
     "C01": ("fault_enumeration",
             "rapid-generated concurrent request storms with scripted per-attempt backend faults and drop/release schedules; history invariant (one response per request stream)",
-            "Generated histories of 1..4 pipelining clients against a scripted fake cluster (every error kind, hold, silence, connection drop before/after reply, simultaneous drops of several hosts), plus slow-consumer floods beyond the write-queue size; the oracle counts response frames per request stream after a positive wait, an OPTIONS fence and socket quiescence. The property quantifies over schedules and fault sequences, which a search over generated fault scripts explores but cannot exhaust.",
+            "Generated histories of 1..4 pipelining clients against a scripted fake cluster (every error kind, hold, silence, connection drop before/after reply, simultaneous drops of several hosts), plus slow-consumer floods beyond the write-queue size and EXECUTEs of forgotten statements while nearly all 2048 backend stream ids are held; the oracle counts response frames per request stream after a positive wait, an OPTIONS fence and socket quiescence. The property quantifies over schedules and fault sequences, which a search over generated fault scripts explores but cannot exhaust.",
             "Internal goroutine interleavings are sampled, not enumerated; 'never two' is decided after a fence plus 8ms of silence; replies lost together with a reset connection are attributed to the connection loss.",
             "DESIGN.md §2.1"),
     "C02": ("exploration",
@@ -43,7 +43,7 @@ CLAIMED = {
             "DESIGN.md §2.2"),
     "C04": ("fault_enumeration",
             "rapid-generated non-idempotent requests (ground truth from the CQL generator) with per-attempt fault scripts; invariant over the backend attempt log",
-            "For requests that are not positively idempotent by construction, scripts place one maybe-applied outcome (write timeout, server/overloaded/truncate error, failure, connection loss, silence, hold) before entries that must never be consumed; the backend's attempt log must show no attempt after such an outcome and the client must get that error or a connection-lost error.",
+            "For requests that are not positively idempotent by construction (including prepared ids whose meaning a later PREPARE redefined), scripts place one maybe-applied outcome (write timeout, server/overloaded/truncate error, failure, connection loss, silence, hold) before entries that must never be consumed; the backend's attempt log must show no attempt after such an outcome and the client must get that error or a connection-lost error.",
             "Idempotency ground truth comes from cqlgen's derivation and from which ids were PREPAREd through the proxy; syntactically broken DML is not generated (the classifier is not a validator).",
             "DESIGN.md §2.4"),
     "C05": ("fault_enumeration",
@@ -53,7 +53,7 @@ CLAIMED = {
             "DESIGN.md §2.5"),
     "C06": ("exploration",
             "grammar-based generation of CQL with ground truth by construction (rapid), metamorphic planting, re-spelling, arbitrary-input totality; native fuzz target in thorough",
-            "Statements are derived from a grammar of the documented DML forms with planted non-idempotent constructs at every term position; oracles: planted => false, plain sub-grammar => true, all re-spellings agree, arbitrary input terminates, err => false. A pure function, so large case counts are cheap.",
+            "Statements are derived from a grammar of the documented DML forms with planted non-idempotent constructs at every term position, plus wide statements (up to 700 sibling terms); oracles: planted => false, plain sub-grammar => true, all re-spellings agree, arbitrary input terminates, err => false. A pure function, so large case counts are cheap.",
             "Ground truth is the generator's derivation; the promised-idempotent sub-grammar excludes function calls, casts and set removal (checked for stability only).",
             "DESIGN.md §2.6"),
     "C11": ("exploration",
@@ -63,17 +63,17 @@ CLAIMED = {
             "DESIGN.md §2.11"),
     "C15": ("exploration",
             "exhaustive enumeration of bounded event histories + rapid state-machine histories + concurrent generated schedules, against a set/rotation reference model",
-            "Every event history over 4 hosts up to length 4 (quick) / 5 hosts up to length 5 (thorough) is enumerated with plans created, held and drained after every prefix; longer random histories, the 2^32/2^64 counter boundaries (hook) and a concurrent variant are searched with rapid. A pure in-memory API, so exhaustive-to-a-bound plus random search is the natural level.",
+            "Hosts with own addresses or sharing one address with distinct keys (Astra style). Every event history over 4 hosts up to length 4 (quick) / 5 hosts up to length 5 (thorough) is enumerated with plans created, held and drained after every prefix; longer random histories, the 2^32/2^64 counter boundaries (hook) and a concurrent variant are searched with rapid. A pure in-memory API, so exhaustive-to-a-bound plus random search is the natural level.",
             "Trusts the set-based membership model; AddEvent of an already-present host is outside the domain; concurrent variant samples schedules, does not enumerate them.",
             "DESIGN.md §2.15"),
     "C07": ("exploration",
             "rapid-generated multi-client histories (USE in every spelling, data requests, parallel USE, reconnects) against a per-client model of (version, compression, keyspace); oracle on the backend connection each request arrived on",
-            "2..5 clients of different versions/compressions, generated keyspace sets including names that differ only by case or need quoting; every tokenised QUERY/PREPARE/EXECUTE/BATCH must arrive on a backend connection whose recorded keyspace, version and compression equal the model's; USE must answer SET_KEYSPACE with the folded name or relay the backend's error and leave the state unchanged; a quarter of the cases put scheduling pressure (spinning goroutines on every processor) on the proxy while a USE of a missing keyspace is in flight.",
+            "2..5 clients of different versions/compressions (client reconnects, loss and replacement of a host's backend connections), generated keyspace sets including names that differ only by case or need quoting; every tokenised QUERY/PREPARE/EXECUTE/BATCH must arrive on a backend connection whose recorded keyspace, version and compression equal the model's; USE must answer SET_KEYSPACE with the folded name or relay the backend's error and leave the state unchanged; a quarter of the cases put scheduling pressure (spinning goroutines on every processor) on the proxy while a USE of a missing keyspace is in flight.",
             "The fake backend implements Cassandra's identifier rule for USE; interleavings of parallel USE are sampled.",
             "DESIGN.md §2.7"),
     "C08": ("fault_enumeration",
             "rapid-generated prepare/execute histories with injected backend amnesia, restarts, late-joining hosts, concurrent bursts and scripted failures of the proxy's re-preparations; history invariant on client replies",
-            "1..3 clients over 2..4 hosts x 1..2 connections; hosts forget one id or everything, restart, or join after start-up; an EXECUTE/BATCH of ids PREPAREd through the proxy must never be answered UNPREPARED, must succeed whenever fewer re-preparations are scripted to fail than hosts are up, and must always be answered.",
+            "1..3 clients over 2..4 hosts x 1..2 connections; hosts forget one id or everything, restart, or join after start-up; requests with the tracing flag and backends that attach warnings to UNPREPARED; an EXECUTE/BATCH of ids PREPAREd through the proxy must never be answered UNPREPARED, must succeed whenever fewer re-preparations are scripted to fail than hosts are up, and must always be answered.",
             "Statement texts are partitioned by client class (version, compression); sharing a text between classes is the recorded finding C08 cross-session-reprepare (separate 'shared' sub-check, reported as KNOWN-FINDING).",
             "DESIGN.md §2.8"),
     "C14": ("exploration",
@@ -88,7 +88,7 @@ CLAIMED = {
             "DESIGN.md §2.16"),
     "C17": ("fault_enumeration",
             "rapid-generated hostile client byte streams (structured: hostile strings in every field, then header/framing mutations) and hostile backend replies, against the proxy as a child process; survival + canary-service oracle",
-            "The real binary (or a host program with fast timers) runs as a child; generated hostile clients and scripted hostile backend replies (to forwarded and to the proxy's own requests); after each case the process must be alive, a new client must be able to connect, and a well-behaved canary's system query, forwarded query and prepared execute must be answered correctly. A sixth of the client cases run against a TLS listener (--proxy-cert-file): the hostile frames inside a TLS session, or a peer that never completes / garbles the TLS handshake and stays connected.",
+            "The real binary (or a host program with fast timers) runs as a child; generated hostile clients and scripted hostile backend replies (to forwarded and to the proxy's own requests), clients that pipeline thousands of requests, never read and vanish; after each case the process must be alive, a new client must be able to connect, and a well-behaved canary's system query, forwarded query and prepared execute must be answered correctly. A sixth of the client cases run against a TLS listener (--proxy-cert-file): the hostile frames inside a TLS session, or a peer that never completes / garbles the TLS handshake and stays connected.",
             "Declared lengths above 16 MiB are out of scope; the TLS family uses the real binary only; the canary retries for up to 4s after hostile backend replies.",
             "DESIGN.md §2.17"),
     "C18": ("exploration",
@@ -98,7 +98,7 @@ CLAIMED = {
             "DESIGN.md §2.18"),
     "C19": ("exploration",
             "rapid-generated bundle host names and server certificate chains from an in-process PKI; TLS probe servers; accept/reject oracle by construction, cross-checked with a plain crypto/tls client",
-            "Valid chains (leaf, leaf+intermediate, wildcard) must be accepted with SNI = node id, the bundle's client certificate and then STARTUP; every invalid chain (other CA, forged issuer name, self-signed, wrong/sibling name, CN-only, expired / not yet valid, missing intermediate) must fail with zero application bytes sent, for both the metadata service and database nodes.",
+            "Valid chains (leaf, leaf+intermediate, wildcard) must be accepted with SNI = node id, the bundle's client certificate and then STARTUP; every invalid chain (other CA, forged issuer name, self-signed, wrong/sibling name, CN-only, expired / not yet valid, missing intermediate) must fail with zero application bytes sent, for both the metadata service and database nodes; a server that turns invalid after a verified connection (same session-ticket keys) must be refused on the next connection of the same endpoint.",
             "Names resolve through an in-process stub DNS; validity deltas >= 2 minutes.",
             "DESIGN.md §2.19"),
     "C20": ("exploration",
